@@ -49,6 +49,19 @@ func genAmount(r *core.Rand, extremes bool) int {
 
 var mutKinds = []string{"badsig", "flipblob", "wrongkey", "otherchain", "ctx", "nochain", "truncctx", "flipraw", "trunc", "garbage", "oversize"}
 
+// Workload is a property-specific extension of the transaction mix.
+type Workload struct {
+	Kinds  []string // extension transaction kinds (registered with RegisterTxKind) or built-in kinds
+	Weight int      // total weight relative to the built-in mix (which sums to about 35)
+	// Tune may adjust the generated knobs (e.g. force a runtime into genesis).
+	Tune func(r *core.Rand, k *ChainKnobs)
+}
+
+var workloads = map[string]*Workload{}
+
+// RegisterWorkload registers the workload extension of a property.
+func RegisterWorkload(prop string, w *Workload) { workloads[prop] = w }
+
 // GenKnobsFor draws genesis knobs.
 func GenKnobsFor(r *core.Rand, replicas int, profile string) GenKnobs {
 	ents := r.Range(replicas, replicas+3)
@@ -115,6 +128,10 @@ func (e Engine) Generate(r *core.Rand, tier core.Tier) *core.Scenario {
 		}
 		k.Replicas = append(k.Replicas, rc)
 	}
+	wl := workloads[e.Prop]
+	if wl != nil && wl.Tune != nil {
+		wl.Tune(r, &k)
+	}
 	sc := &core.Scenario{Engine: "chain", Knobs: core.MustJSON(k)}
 	heights := r.Range(12, 40)
 	if tier == core.Thorough {
@@ -127,6 +144,10 @@ func (e Engine) Generate(r *core.Rand, tier core.Tier) *core.Scenario {
 	for h := 0; h < heights; h++ {
 		for i, n := 0, r.Range(0, txRate); i < n; i++ {
 			op := TxOp{Kind: txKinds[r.Pick(w)], From: r.Intn(nsign), To: r.Intn(nsign), Amt: genAmount(r, extremes), Arg: r.Intn(64)}
+			if wl != nil && len(wl.Kinds) > 0 && r.Intn(35+wl.Weight) < wl.Weight {
+				op.Kind = wl.Kinds[r.Intn(len(wl.Kinds))]
+				op.Arg = r.Intn(1 << 16)
+			}
 			if r.Chance(1, 2) {
 				op.Fee = uint64(r.Range(0, 50))
 			}
